@@ -14,6 +14,21 @@ CHECKS = {
             'Complete for the stated N; every finite chain of products is a path through checked edges.',
             'Dense 2x2 matrices + numpy kron are the root oracle; bounded to N<=3/4 (kernels loop uniformly over qubits).',
             '3/C01'),
+    'C05': ('explicit-state inductive sweep over the complete valid tableau space (N<=2) x operation menu x all coin branches on the real code, plus reachability BFS',
+            'From each of the 48 / 34560 independently enumerated valid tableaux every menu operation (rotations with and without mask, '
+            'map transforms, named gates forward/backward, single and pair measurements and MeasureLayer under every coin branch, '
+            'state-argument measurement, post-selection, copy, map round trip) is executed on a fresh real object and the successor '
+            'must again be valid; by induction the invariant holds after every finite history at those N. Constructors (random ones over '
+            'the complete coin tree) and a BFS for N=3 supplement it.',
+            'Bounded to N<=2 for the complete sweep (N=3 BFS is capped and reported as supplementary); RNG ownership by MT19937 state scripting.',
+            '3/C05'),
+    'C06': ('stateless exhaustive exploration of the measurement coin tree from every valid tableau on the real code vs density-matrix trajectory',
+            'For all 34560 N=2 tableaux x all 32 signed observables, and all 544 commuting signed pairs (on one tableau per density matrix in '
+            'quick, on all tableaux in thorough), every coin string the kernel consumes is enumerated; outcomes, coin count, log2prob, '
+            'post-state (as density matrix), rank and repetition are compared with the projection postulate. Interleavings with unitaries '
+            'follow by induction since every valid state is a source.',
+            'MT19937 bits fair/independent; bounded to N<=2 complete, N=3 on BFS representatives (supplementary).',
+            '3/C06'),
 }
 
 NOT_BUILT_REASON = 'check not built yet in this session (planned: DESIGN.md section 3); model checking applies'
